@@ -219,6 +219,17 @@ impl Tree {
 		self.core.commit_pipeline.verif_oracle_state()
 	}
 
+	/// Wakes both background tasks the way the store itself does (a task that is
+	/// marked running is not notified; no-op in manual mode).
+	pub fn verif_wake_background_like_the_store(&self) {
+		if let Ok(g) = self.core.task_manager.lock() {
+			if let Some(tm) = g.as_ref() {
+				tm.wake_up_memtable();
+				tm.wake_up_level();
+			}
+		}
+	}
+
 	/// Wakes both background tasks (ignores manual mode).
 	pub fn verif_wake_background(&self) {
 		if let Ok(g) = self.core.task_manager.lock() {
